@@ -1061,7 +1061,31 @@ impl<'a> Walk<'a> {
                 v.extend(args.iter().map(|p| self.pat(*p)));
                 tagged("pconstr", v)
             }
-            hir::Pat::PStruct { .. } => self.bad("PStruct"),
+            hir::Pat::PStruct { name, fields } => {
+                // a struct pattern that names every field exactly once is a constructor pattern in declared field order
+                let tn = name.display();
+                if tn.contains("::") {
+                    return self.bad("PStruct-qualified");
+                }
+                let Some(def) = self.genv.current().structs().get(&TastIdent(tn.clone())) else { return self.bad("PStruct-unknown") };
+                let names: Vec<String> = def.fields.iter().map(|(f, _)| f.0.clone()).collect();
+                let mut ordered = Vec::new();
+                for nm in names.iter() {
+                    let hits: Vec<_> = fields.iter().filter(|(f, _)| f.to_ident_name() == *nm).collect();
+                    if hits.len() != 1 {
+                        return self.bad("PStruct-irregular");
+                    }
+                    ordered.push(hits[0].1);
+                }
+                if fields.len() != names.len() {
+                    return self.bad("PStruct-irregular");
+                }
+                let Some((_, cty)) = self.genv.current().lookup_constructor(&TastIdent(tn)) else { return self.bad("PStruct-unknown") };
+                self.kind("pat_struct");
+                let mut v = vec![tagged("ctor", vec![dump::ty(&cty), n(names.len())])];
+                v.extend(ordered.into_iter().map(|p| self.pat(p)));
+                tagged("pconstr", v)
+            }
             hir::Pat::PInt8 { value } => self.tint(&value, Ty::TInt8, -(1i128 << 7), (1i128 << 7) - 1),
             hir::Pat::PInt16 { value } => self.tint(&value, Ty::TInt16, -(1i128 << 15), (1i128 << 15) - 1),
             hir::Pat::PInt32 { value } => self.tint(&value, Ty::TInt32, -(1i128 << 31), (1i128 << 31) - 1),
@@ -1198,7 +1222,46 @@ impl<'a> Walk<'a> {
                 v.extend(args.iter().map(|e| self.expr(*e)));
                 tagged("constr", v)
             }
-            hir::Expr::EStructLiteral { .. } => self.bad("EStructLiteral"),
+            hir::Expr::EStructLiteral { name, fields } => {
+                let tn = name.display();
+                if tn.contains("::") {
+                    return self.bad("EStructLiteral-qualified");
+                }
+                let info = match self.genv.current().lookup_constructor(&TastIdent(tn.clone())) {
+                    None => None,
+                    Some((compiler::common::Constructor::Struct(sc), cty)) => {
+                        let Some(def) = self.genv.current().structs().get(&sc.type_name) else { return self.bad("EStructLiteral-irregular") };
+                        Some((cty, def.fields.iter().map(|(f, _)| f.0.clone()).collect::<Vec<String>>()))
+                    }
+                    Some(_) => return self.bad("EStructLiteral-enum"),
+                };
+                let mut v = vec![n(i)];
+                let mut idxs = vec![a("idxs")];
+                match &info {
+                    None => v.push(tagged("noctor", vec![])),
+                    Some((cty, names)) => {
+                        // every declared field written exactly once, nothing else
+                        if fields.len() != names.len() {
+                            return self.bad("EStructLiteral-irregular");
+                        }
+                        for (f, _) in fields.iter() {
+                            let nm = f.to_ident_name();
+                            let Some(k) = names.iter().position(|x| *x == nm) else { return self.bad("EStructLiteral-irregular") };
+                            if fields.iter().filter(|(g, _)| g.to_ident_name() == nm).count() != 1 {
+                                return self.bad("EStructLiteral-irregular");
+                            }
+                            idxs.push(n(k));
+                        }
+                        v.push(tagged("ctor", vec![dump::ty(cty), n(names.len())]));
+                    }
+                }
+                self.kind("struct_literal");
+                v.push(l(idxs));
+                if info.is_some() {
+                    v.extend(fields.iter().map(|(_, e)| self.expr(*e)));
+                }
+                tagged("slit", v)
+            }
             hir::Expr::EArray { items } => {
                 self.kind("array");
                 let mut v = vec![n(i)];
@@ -1453,6 +1516,8 @@ fn classify_solve(msg: &str) -> &'static str {
 
 #[derive(Default)]
 struct FnRec {
+    /// `Some(k)`: a method of an impl block (k makes the row id unique)
+    method: Option<usize>,
     name: String,
     n0: u32,
     d0: usize,
@@ -1492,7 +1557,15 @@ fn observe(col: &Rc<RefCell<Vec<FnRec>>>, genv: &PackageTypeEnv, typer: &mut Typ
     if genv.package != "Main" {
         return;
     }
+    // methods of impl blocks arrive with the phase shifted by 10 (second verif-hook commit)
+    let (method, phase) = if phase >= 10 { (true, phase - 10) } else { (false, phase) };
     let mut col = col.borrow_mut();
+    if phase == 0 && method {
+        let q0 = typer.verif_constraints().len();
+        let k = col.len();
+        col.push(FnRec { name: f.name.clone(), method: Some(k), n0: typer.verif_var_count(), d0: diags.len(), q0, ..Default::default() });
+        return;
+    }
     if phase == 0 {
         // `solve` leaves what it could not solve in the queue: after a rejected function the next one starts with it
         let q0 = typer.verif_constraints().len();
@@ -1511,17 +1584,27 @@ fn observe(col: &Rc<RefCell<Vec<FnRec>>>, genv: &PackageTypeEnv, typer: &mut Typ
             rec.skip = Some("leftover-queue".to_string());
             return;
         }
-        let tparams: Vec<TastIdent> = f.generics.iter().map(|g| TastIdent(g.to_ident_name())).collect();
+        let mut tparams: Vec<TastIdent> = if method { compiler::typer::verif_impl_generics().into_iter().map(TastIdent).collect() } else { Vec::new() };
+        tparams.extend(f.generics.iter().map(|g| TastIdent(g.to_ident_name())));
         let mut w = Walk { table: &typer.hir_table, genv, tparams: &tparams, ids: Vec::new(), names: Vec::new(), kinds: BTreeMap::new(), unsupported: None, check_closures: 0 };
         let body = w.expr(f.body);
         if let Some(k) = w.unsupported.take() {
             rec.skip = Some(k);
             return;
         }
-        let params: Vec<S> = f.params.iter().map(|(lid, t)| l(vec![n(lid.idx), w.ty_of(t)])).collect();
-        let ret = match &f.ret_ty {
-            Some(t) => w.ty_of(t),
-            None => dump::ty(&Ty::TUnit),
+        // a method's parameter / result types have `Self` replaced and see the impl generics: read what the typer used
+        let params: Vec<S> = if method {
+            let res = typer.results.results();
+            f.params.iter().map(|(lid, t)| l(vec![n(lid.idx), res.local_ty(*lid).map(dump::ty).unwrap_or_else(|| w.ty_of(t))])).collect()
+        } else {
+            f.params.iter().map(|(lid, t)| l(vec![n(lid.idx), w.ty_of(t)])).collect()
+        };
+        let ret = match (method, typer.verif_constraints().last()) {
+            (true, Some(Constraint::TypeEqual(_, r))) => dump::ty(r),
+            _ => match &f.ret_ty {
+                Some(t) => w.ty_of(t),
+                None => dump::ty(&Ty::TUnit),
+            },
         };
         let funs: Vec<S> = w.names.iter().filter_map(|nm| genv.current().get_type_of_function(nm).map(|t| l(vec![a(nm), dump::ty(&t)]))).collect();
         rec.input = Some(tagged(
@@ -1625,7 +1708,13 @@ fn extra_program(prefix: &str, k: usize, path: &std::path::Path, src: &str, labe
     cov.inc(&format!("{}_programs", key));
     let recs = col.borrow();
     for rec in recs.iter() {
-        let id = format!("{}{}.{}", prefix, k, rec.name);
+        let id = match rec.method {
+            Some(m) => format!("{}{}.{}#m{}", prefix, k, rec.name, m),
+            None => format!("{}{}.{}", prefix, k, rec.name),
+        };
+        if rec.method.is_some() {
+            cov.inc(&format!("{}_methods", key));
+        }
         cov.inc(&format!("{}_functions", key));
         if let Some(kind) = &rec.skip {
             out.push_str(&format!("{}\tSKIP\t{}\n", id, kind));
